@@ -3,7 +3,7 @@ import PtnModel.Proofs.RbiNorm
 /-!
 # Block SVD split: the result of a run of `split_matrix_svd`
 
-Both branches (shared charges / no shared charge): `split_ok'`, `SplitResult` (dimensions, block sparsity; shape
+Both branches (non-zero matrix, hence shared charges / zero matrix, in particular no shared charge): `split_ok'`, `SplitResult` (dimensions, block sparsity; shape
 clause only), orthonormality of the retained columns of `u` / rows of `v`, the residual formula
 `A - u·diag(s)·v = Σ_{p discarded} …` and its consequences.
 -/
@@ -72,26 +72,40 @@ theorem sum_along_idx {α : Type} [AddCommMonoid α] {l : List Nat} {D : Nat} (h
     apply sum_congr rfl; intro p _; simp only [List.mem_toFinset]
   rw [h2, sum_ite_mem, inter_eq_right.2 hsub]
 
-/-! ### no shared charge -/
+/-! ### zero matrix (in particular: no shared charge) -/
+
+theorem split_zero' (dsvd : Mat 𝕜 → Mat 𝕜 × List ρ × Mat 𝕜) (H : QRInput A q0 q1) (hz : ¬ AnyNZ A) :
+    splitMatrixSvd dsvd dnorm dargsort A q0 q1 tol = .ok (e0 A.m, [0], Mat.zero 1 A.n, q0.take 1) :=
+  split_eq_zero dsvd dnorm dargsort A q0 q1 tol H.hq0 H.hq1 ((isSparseMat_iff A q0 q1).2 H.hsp)
+    ((all_zero_iff A).2 ((not_anyNZ_iff A).1 hz))
+
+/-- without a shared charge a block-sparse matrix is zero -/
+theorem not_anyNZ_of_disjoint (H : QRInput A q0 q1) (he : intersect1d q0 q1 = []) : ¬ AnyNZ A :=
+  (not_anyNZ_iff A).2 (all_zero_of_disjoint H he)
+
+/-- a block-sparse matrix with a non-zero entry has a shared charge -/
+theorem shared_of_anyNZ (H : QRInput A q0 q1) (hnz : AnyNZ A) : intersect1d q0 q1 ≠ [] :=
+  fun he => not_anyNZ_of_disjoint H he hnz
 
 theorem split_disjoint' (dsvd : Mat 𝕜 → Mat 𝕜 × List ρ × Mat 𝕜) (H : QRInput A q0 q1) (he : intersect1d q0 q1 = []) :
     splitMatrixSvd dsvd dnorm dargsort A q0 q1 tol = .ok (e0 A.m, [0], Mat.zero 1 A.n, q0.take 1) :=
-  split_eq_empty dsvd dnorm dargsort A q0 q1 tol H.hq0 H.hq1 ((isSparseMat_iff A q0 q1).2 H.hsp) (by rw [he]; rfl)
-    ((all_zero_iff A).2 (all_zero_of_disjoint H he))
+  split_zero' dnorm dargsort tol dsvd H (not_anyNZ_of_disjoint H he)
 
-/-! ### shared charges -/
+/-! ### non-zero matrix (hence shared charges) -/
 
-theorem split_nonempty (hshape : SvdShape dsvd A q0 q1) (H : QRInput A q0 q1) (hne : intersect1d q0 q1 ≠ []) :
+theorem split_nonempty (hshape : SvdShape dsvd A q0 q1) (H : QRInput A q0 q1) (hnz : AnyNZ A) :
     splitMatrixSvd dsvd dnorm dargsort A q0 q1 tol =
       .ok (outU dnorm dargsort dsvd A q0 q1 tol, outS dnorm dargsort dsvd A q0 q1 tol,
         outV dnorm dargsort dsvd A q0 q1 tol, outQn dnorm dargsort dsvd A q0 q1 tol) := by
   have hb := (svdLoopState_inv hshape H.hq0 H.hq1).base
   have hD : (svdLoopState dsvd A q0 q1).D ≤ min (srt A q0 q1).2.2.m (srt A q0 q1).2.2.n :=
     Nat.le_min.2 ⟨hb.Dm, hb.Dn⟩
+  have hne := shared_of_anyNZ H hnz
   rw [split_eq dsvd dnorm dargsort A q0 q1 tol H.hq0 H.hq1 ((isSparseMat_iff A q0 q1).2 H.hsp)
     (by cases h : intersect1d q0 q1 with
         | nil => exact absurd h hne
-        | cons _ _ => rfl),
+        | cons _ _ => rfl)
+    ((all_zero_false_iff A).2 hnz),
     if_pos hD]
 
 /-- the retained indices of the run are strictly increasing and below the loop dimension `D` -/
@@ -162,29 +176,29 @@ theorem result_split_nonempty (hshape : SvdShape dsvd A q0 q1) (H : QRInput A q0
 /-- `split_matrix_svd` never fails on admissible input (shape clause only) -/
 theorem split_ok' (hshape : SvdShape dsvd A q0 q1) (H : QRInput A q0 q1) :
     ∃ u s v q, splitMatrixSvd dsvd dnorm dargsort A q0 q1 tol = .ok (u, s, v, q) := by
-  by_cases he : intersect1d q0 q1 = []
-  · exact ⟨_, _, _, _, split_disjoint' dnorm dargsort tol dsvd H he⟩
-  · exact ⟨_, _, _, _, split_nonempty dnorm dargsort tol hshape H he⟩
+  by_cases hz : AnyNZ A
+  · exact ⟨_, _, _, _, split_nonempty dnorm dargsort tol hshape H hz⟩
+  · exact ⟨_, _, _, _, split_zero' dnorm dargsort tol dsvd H hz⟩
 
-/-- case analysis on a successful run -/
+/-- case analysis on a successful run: zero matrix (dummy bond) / non-zero matrix (loop over the shared charges) -/
 theorem split_run_cases (hshape : SvdShape dsvd A q0 q1) (H : QRInput A q0 q1) {u v : Mat 𝕜} {s : List ρ} {q : List Int}
     (hrun : splitMatrixSvd dsvd dnorm dargsort A q0 q1 tol = .ok (u, s, v, q)) :
-    (intersect1d q0 q1 = [] ∧ u = e0 A.m ∧ s = [0] ∧ v = Mat.zero 1 A.n ∧ q = q0.take 1) ∨
-    (intersect1d q0 q1 ≠ [] ∧ u = outU dnorm dargsort dsvd A q0 q1 tol ∧ s = outS dnorm dargsort dsvd A q0 q1 tol ∧
+    (¬ AnyNZ A ∧ u = e0 A.m ∧ s = [0] ∧ v = Mat.zero 1 A.n ∧ q = q0.take 1) ∨
+    (AnyNZ A ∧ u = outU dnorm dargsort dsvd A q0 q1 tol ∧ s = outS dnorm dargsort dsvd A q0 q1 tol ∧
       v = outV dnorm dargsort dsvd A q0 q1 tol ∧ q = outQn dnorm dargsort dsvd A q0 q1 tol) := by
-  by_cases he : intersect1d q0 q1 = []
-  · rw [split_disjoint' dnorm dargsort tol dsvd H he] at hrun
+  by_cases hz : AnyNZ A
+  · rw [split_nonempty dnorm dargsort tol hshape H hz] at hrun
     injection hrun with hrun
     injection hrun with h1 hrun
     injection hrun with h2 hrun
     injection hrun with h3 h4
-    exact Or.inl ⟨he, h1.symm, h2.symm, h3.symm, h4.symm⟩
-  · rw [split_nonempty dnorm dargsort tol hshape H he] at hrun
+    exact Or.inr ⟨hz, h1.symm, h2.symm, h3.symm, h4.symm⟩
+  · rw [split_zero' dnorm dargsort tol dsvd H hz] at hrun
     injection hrun with hrun
     injection hrun with h1 hrun
     injection hrun with h2 hrun
     injection hrun with h3 h4
-    exact Or.inr ⟨he, h1.symm, h2.symm, h3.symm, h4.symm⟩
+    exact Or.inl ⟨hz, h1.symm, h2.symm, h3.symm, h4.symm⟩
 
 theorem result_of_split (hshape : SvdShape dsvd A q0 q1) (H : QRInput A q0 q1) {u v : Mat 𝕜} {s : List ρ} {q : List Int}
     (hrun : splitMatrixSvd dsvd dnorm dargsort A q0 q1 tol = .ok (u, s, v, q)) : SplitResult A q0 q1 u s v q := by
@@ -260,10 +274,10 @@ theorem isoU' (hshape : SvdShape dsvd A q0 q1) (hiso : SvdIsoU dsvd A q0 q1) (H 
 theorem isoV' (hshape : SvdShape dsvd A q0 q1) (hiso : SvdIsoV dsvd A q0 q1) (H : QRInput A q0 q1)
     {u v : Mat 𝕜} {s : List ρ} {q : List Int}
     (hrun : splitMatrixSvd dsvd dnorm dargsort A q0 q1 tol = .ok (u, s, v, q))
-    (hne : intersect1d q0 q1 ≠ []) {t t' : Nat} (ht : t < v.m) (ht' : t' < v.m) :
+    (hnz : AnyNZ A) {t t' : Nat} (ht : t < v.m) (ht' : t' < v.m) :
     ∑ j ∈ range A.n, v.f t j * star (v.f t' j) = if t = t' then 1 else 0 := by
-  rcases split_run_cases dnorm dargsort tol hshape H hrun with ⟨he, -⟩ | ⟨-, rfl, rfl, rfl, rfl⟩
-  · exact absurd he hne
+  rcases split_run_cases dnorm dargsort tol hshape H hrun with ⟨hz, -⟩ | ⟨-, rfl, rfl, rfl, rfl⟩
+  · exact absurd hnz hz
   · exact isoV_nonempty dnorm dargsort tol hshape hiso H ht ht'
 
 end iso
